@@ -15,6 +15,15 @@ type caseRow struct {
 	Assign  map[string]string // assigned variable/field path -> value key
 	Return  []string          // value keys of the results of the first return statement in the body
 	Clause  *ast.CaseClause
+	At      ast.Node // position of the row when it does not come from a case clause (a literal table)
+}
+
+// where returns the syntax node a row was read from.
+func (r caseRow) where() ast.Node {
+	if r.Clause != nil {
+		return r.Clause
+	}
+	return r.At
 }
 
 // valueKey renders the class-relevant identity of an expression: a named object, a wrap of a
@@ -150,4 +159,137 @@ func enumConsts(t *types.Named) map[string]string {
 		}
 	}
 	return res
+}
+
+// literalTableRows reads a lookup table written as a package-level composite literal and used by fi:
+//
+//	map[K]V{k1: v1, ...}                      -> rows k -> v
+//	[]struct{a, b}{{a: x1, b: y1}, ...}       -> rows x -> y, where the label is the field holding an fs_db sentinel
+//	                                              (server side: class -> code), otherwise the first field
+//
+// A value that the using function returns wrapped (fmt.Errorf("...%w", v) with v taken from the table) is
+// rendered wrap:<v>, as extractSwitch renders the equivalent return statement. A miss of a comma-ok look-up
+// ("if !ok { return X }") becomes the default row.
+func (p *Prog) literalTableRows(fi *FuncInfo) [][]caseRow {
+	info := fi.Pkg.TypesInfo
+	var tables [][]caseRow
+	seen := map[types.Object]bool{}
+	ast.Inspect(fi.Decl.Body, func(x ast.Node) bool {
+		id, ok := x.(*ast.Ident)
+		if !ok {
+			return true
+		}
+		v, ok := info.Uses[id].(*types.Var)
+		if !ok || v.Pkg() == nil || v.Parent() != v.Pkg().Scope() || seen[v] {
+			return true
+		}
+		seen[v] = true
+		init, ipkg := p.pkgVarInit(v)
+		cl, ok := init.(*ast.CompositeLit)
+		if !ok || ipkg == nil {
+			return true
+		}
+		iinfo := ipkg.TypesInfo
+		// how the function uses a value taken from the table: wrapped with %w?
+		wrapped := false
+		lookedUp := map[types.Object]bool{}
+		var okObj types.Object
+		ast.Inspect(fi.Decl.Body, func(y ast.Node) bool {
+			switch st := y.(type) {
+			case *ast.AssignStmt:
+				if len(st.Rhs) == 1 {
+					if ix, isIx := ast.Unparen(st.Rhs[0]).(*ast.IndexExpr); isIx && objOf(info, ix.X) == v {
+						if o := objOf(info, st.Lhs[0]); o != nil {
+							lookedUp[o] = true
+						}
+						if len(st.Lhs) == 2 {
+							okObj = objOf(info, st.Lhs[1])
+						}
+					}
+				}
+			case *ast.RangeStmt:
+				if objOf(info, st.X) == v && st.Value != nil {
+					if o := objOf(info, st.Value); o != nil {
+						lookedUp[o] = true
+					}
+				}
+			}
+			return true
+		})
+		ast.Inspect(fi.Decl.Body, func(y ast.Node) bool {
+			if c, isC := y.(*ast.CallExpr); isC && isFunc(info, c, "fmt", "Errorf") && len(c.Args) > 1 {
+				format, _ := constStr(info, c.Args[0])
+				verbs := fmtVerbs(format)
+				for i, a := range c.Args[1:] {
+					if i < len(verbs) && verbs[i] == 'w' {
+						if o := objOf(info, a); o != nil && lookedUp[o] {
+							wrapped = true
+						}
+					}
+				}
+			}
+			return true
+		})
+		render := func(k string) string {
+			if wrapped {
+				return "wrap:" + k
+			}
+			return k
+		}
+		var rows []caseRow
+		for _, el := range cl.Elts {
+			switch e := el.(type) {
+			case *ast.KeyValueExpr:
+				if _, isMap := iinfo.Types[cl].Type.Underlying().(*types.Map); isMap {
+					rows = append(rows, caseRow{Labels: []string{valueKey(iinfo, e.Key)}, Return: []string{render(valueKey(iinfo, e.Value))}, Assign: map[string]string{}, At: e})
+				}
+			case *ast.CompositeLit:
+				var vals []string
+				for _, fe := range e.Elts {
+					if kv, isKV := fe.(*ast.KeyValueExpr); isKV {
+						vals = append(vals, valueKey(iinfo, kv.Value))
+					} else if ex, isE := fe.(ast.Expr); isE {
+						vals = append(vals, valueKey(iinfo, ex))
+					}
+				}
+				if len(vals) != 2 {
+					continue
+				}
+				label, val := vals[0], vals[1]
+				if strings.HasPrefix(vals[1], "fs_db.") && !strings.HasPrefix(vals[0], "fs_db.") {
+					label, val = vals[1], vals[0]
+				}
+				rows = append(rows, caseRow{Labels: []string{label}, Assign: map[string]string{"var": val}, At: e})
+			}
+		}
+		if len(rows) == 0 {
+			return true
+		}
+		// the miss branch of a comma-ok look-up is the default row
+		if okObj != nil {
+			ast.Inspect(fi.Decl.Body, func(y ast.Node) bool {
+				ifs, isIf := y.(*ast.IfStmt)
+				if !isIf {
+					return true
+				}
+				u, isU := ast.Unparen(ifs.Cond).(*ast.UnaryExpr)
+				if !isU || u.Op.String() != "!" || objOf(info, u.X) != okObj {
+					return true
+				}
+				for _, bs := range ifs.Body.List {
+					if rs, isR := bs.(*ast.ReturnStmt); isR && len(rs.Results) > 0 {
+						var ret []string
+						for _, e := range rs.Results {
+							ret = append(ret, valueKey(info, e))
+						}
+						rows = append(rows, caseRow{Default: true, Return: ret, Assign: map[string]string{}, At: ifs})
+					}
+				}
+				return true
+			})
+		}
+		tables = append(tables, rows)
+		return true
+	})
+	return tables
 }
